@@ -27,6 +27,18 @@ CLAIMED = {
             "ComputeCRC is compared with a reference written from the definition (bitwise and table-driven twins, catalogue check value) on all strings of length <= 2, all single-bit strings up to 96 bytes + sampled lengths to 1024 (thorough: all to 1024), and random strings up to 4096 bytes; the appended-CRC residue is checked with both implementations. Residues of emitted sections are asserted in the C09/C14 oracles.",
             "Trusted: the reference CRC (self-checked at start-up against 0x0376E6E7 for '123456789').",
             "DESIGN.md section 4 C13"),
+    "C16": ("differential property-based testing (rapid): Sync vs a reference scan over generated streams with constructed false sync bytes and cut headers, through fragmenting readers and several buffer sizes; bounded-exhaustive placements",
+            "Streams over a skewed alphabet with constructed false sync bytes of both kinds before an optional true header, cut anywhere, read through bufio readers of 4 sizes over fragmenting sources; offset, error and the exact bytes left in the reader are compared with a reference scan implementing the statement's predicate. All placements with up to 6 false sync bytes are enumerated.",
+            "Trusted: the reference scan (10 lines); bufio.Reader as the PeekScanner implementation.",
+            "DESIGN.md section 4 C16"),
+    "C17": ("model-based (stateful) property-based testing: generated WritePacket/Bytes/Packets/Reset histories against a three-state reference model, with aliasing probes and a lockstep differential against a fresh accumulator after Reset",
+            "Histories of up to 30 calls with generated packets and four predicate kinds; after every call Bytes() and Packets() are compared with the model, returned slices are overwritten and the caller's packet modified to expose aliasing, completion/refusal/predicate-error returns are checked, and after Reset a fresh accumulator is driven in lockstep.",
+            "Trusted: the reference state machine in the harness; ref.Packet for payload extraction. A payload-less packet after the unit start may or may not be listed by Packets().",
+            "DESIGN.md section 4 C17"),
+    "C18": ("property-based testing (rapid) with fault injection: generated packet data through every adapter construction, seven reader fragmentations, failing packet writers and failing readers; bounded-exhaustive small combinations",
+            "The sequence of packets seen by a recording packet-writer mock, the returned count and the error are compared with the statement for Write (incl. non-multiple lengths and a failing packet write at every position) and for ReadFrom (directly and via io.Copy) through bytes/bufio/one-byte/half/data-with-EOF/chunked readers and a reader failing with its own error after k bytes. Small combinations are enumerated.",
+            "Trusted: the mock packet writer (returns 188 on success) and the reader wrappers from testing/iotest.",
+            "DESIGN.md section 4 C18"),
     "C15": ("property-based testing (rapid) against uint64 reference arithmetic + complete enumeration of the threshold windows; native fuzz over the same generator in the thorough tier",
             "Generated-input search: every clause of the statement is evaluated on (p,q,d) triples with heavy bias to the four thresholds and the wrap, and every pair from the +-8 (thorough +-40) tick windows around the thresholds is enumerated. A threshold off-by-one, a wrong mask in Add or a swapped DurationFrom case is hit within the first few hundred cases; absence is not proven for the full 2^66 pair space.",
             "Trusted: the harness' uint64 reference arithmetic written from the statement; Go arithmetic. Assumes 33-bit inputs as the statement does.",
